@@ -18,7 +18,6 @@ NOT_APPLICABLE = {
     "C06": "needs the parser (C05) and fmt::Display string output; equality is 'evaluates identically', which needs the whole evaluator (DESIGN.md §4 C06)",
     "C07": "compares schedule_at of two whole expressions; paving construction and evaluator are beyond CBMC, Verus rejects the code; component lemmas would keep passing on a tree that violates the property (DESIGN.md §4 C07)",
     "C09": "a statement about chrono-tz's generated transition tables (external code and data without contracts) (DESIGN.md §4 C09)",
-    "C10": "data-integrity across build script, deflate and env!-embedded bytes; not a function contract (calendar framing itself is C15) (DESIGN.md §4 C10)",
     "C12": "CPython/pyo3 boundary; no Rust deductive verifier crosses it and there is no Python verifier here (DESIGN.md §4 C12)",
     "C13": "idempotence is a fixpoint property of the whole normalize pipeline; same obstacles as C07 (DESIGN.md §4 C13)",
     "C16": "the bound acts inside TimeDomainIterator across multi-day accumulated intervals; out of reach like C03 (DESIGN.md §4 C16)",
